@@ -39,7 +39,7 @@ func init() {
 			}
 			return []runner.Phase{
 				{Name: "iterations", Variant: "race", Cases: n, Run: c15case, CaseTimeout: 120 * time.Second,
-					Required: []string{"multi_page_iterations", "empty_pages", "fetch_errors", "manual_paging", "manual_paging_from_empty_state", "with_speculative_policy", "concurrent_manual_pagers", "manual_paging_without_page_size", "query_object_changed_while_iterating", "results_with_constant_paging_state", "consistency_via_SetConsistency", "consumer_scan", "consumer_scanner", "consumer_mapscan", "consumer_slicemap", "prepared", "unprepared", "skipmeta"}},
+					Required: []string{"multi_page_iterations", "empty_pages", "fetch_errors", "manual_paging", "manual_paging_from_empty_state", "with_speculative_policy", "concurrent_manual_pagers", "manual_paging_without_page_size", "query_object_changed_while_iterating", "results_with_constant_paging_state", "consistency_via_SetConsistency", "manual_paging_value_bound_after_page_state", "queries_released_to_the_pool", "consumer_scan", "consumer_scanner", "consumer_mapscan", "consumer_slicemap", "prepared", "unprepared", "skipmeta"}},
 			}
 		},
 	})
@@ -324,7 +324,12 @@ func c15case(c *runner.Ctx, i int) {
 		c.Add("consumer_"+consumer, 1)
 		var q *gocql.Query
 		val := fmt.Sprintf("v-%s", set.id)
-		if set.prepared {
+		// the value is bound after the other options were set (for a walk by hand: after the - empty - page state)
+		lateBind := set.prepared && r.Intn(3) == 0
+		if lateBind {
+			q = sess.Query("SELECT PAGED " + set.id + " FROM ks.paged WHERE k = ?")
+			c.Add("prepared", 1)
+		} else if set.prepared {
 			q = sess.Query("SELECT PAGED "+set.id+" FROM ks.paged WHERE k = ?", val)
 			c.Add("prepared", 1)
 		} else {
@@ -371,7 +376,7 @@ func c15case(c *runner.Ctx, i int) {
 		if manual {
 			c.Add("manual_paging", 1)
 			start := 1 + r.Intn(np-1)
-			if r.Intn(4) == 0 {
+			if r.Intn(4) == 0 || lateBind {
 				// a walk through the pages by hand starts with an empty state (e.g. decoded from an empty request
 				// parameter): that is the first page, asked for without any paging state
 				start = 0
@@ -384,6 +389,11 @@ func c15case(c *runner.Ctx, i int) {
 				q.PageState([]byte{})
 			} else {
 				q.PageState(c15state(set.id, start))
+			}
+			if lateBind {
+				// (Bind starts the statement over - it forgets a page state - but not the caller's choice to page by hand)
+				q.Bind(val)
+				c.Add("manual_paging_value_bound_after_page_state", 1)
 			}
 			if r.Intn(3) == 0 {
 				// "the rest from here on": a state to resume from, and no page size
@@ -420,7 +430,15 @@ func c15case(c *runner.Ctx, i int) {
 			if nreq != 1 {
 				fail("manual:request-count", fmt.Sprintf("a query with a caller-supplied page state caused %d requests, want exactly 1", nreq))
 			}
+			if r.Intn(2) == 0 {
+				// back to the pool: whoever gets this object next pages automatically again
+				q.Release()
+				c.Add("queries_released_to_the_pool", 1)
+			}
 			continue
+		}
+		if lateBind {
+			q.Bind(val)
 		}
 		it := q.Iter()
 		if r.Intn(4) == 0 {
